@@ -771,7 +771,7 @@ func (g *xGen) mutate(t *xTy, v interface{}) interface{} {
 			// %v formatting of floats, lists and maps is not modelled
 			return []interface{}{2147483648, "zz", true}[g.r.Intn(3)]
 		}
-		return []interface{}{2147483648, -2147483649, 1.5, "zz", true, map[string]interface{}{"zz": 1}, []interface{}{1, "zz"}}[g.r.Intn(7)]
+		return []interface{}{2147483648, -2147483649, 1.5, "zz", true, map[string]interface{}{"zz": 1}, []interface{}{1, "zz"}, "NaN", "Inf"}[g.r.Intn(9)]
 	}
 	switch x := v.(type) {
 	case []interface{}:
